@@ -4,6 +4,7 @@ import GraphSlam.Model.Chi2
 import GraphSlam.Model.Ctl
 import Driver.Asm
 import Driver.Iter
+import Driver.Heap
 import GraphSlam.Model.NumJac
 
 /-! Model driver: one request per input line, one reply per output line.
@@ -17,6 +18,7 @@ import GraphSlam.Model.NumJac
   fixedidx <ffp> <n> <flag>*n <gidx>*n   flags after fix_first_pose and the fixed gradient-index set (graph.py:429-433)
   fd <eps> <m> <err0>*m <errd>*m         Model.fdColumn: one column of the numerical Jacobian
   ctl <tol> <eps> <maxIter> <chi2>*      Model.optimizeCtl: the report of Graph.optimize from the chi2 sequence
+  heap <world with aliasing> <history>   Model.Objects (object identities): see Driver/Heap.lean
 -/
 
 open Driver
@@ -44,6 +46,7 @@ def handle (line : String) : String :=
   | "asm" :: rest => handleAsm rest
   | "iter" :: rest => handleIter rest
   | "run" :: rest => handleRun rest
+  | "heap" :: rest => heapCmd rest
   | "fixedidx" :: ffp :: n :: rest =>
     -- head of optimize(): flags' = applyFixFirst ffp flags ; fixed index set = indices of flagged vertices
     match n.toNat?, (rest.mapM String.toNat?) with
